@@ -1,5 +1,5 @@
 /- C05: slicing (`__getitem__`) on canonical Buffers. -/
-import Schc.Proofs.BufBitwise
+import Schc.Proofs.BufShiftGen
 
 namespace Schc
 open Bits
